@@ -60,6 +60,7 @@ PROFILES = {
     'c06': dict(put=26, dele=8, batch=6, get=10, getall=8, snap=9, release=5, flush=5, crange=8, compact=2, reopen=0, scan=6, iter=2, layout=2, longiter=0),
     'c07': dict(put=24, dele=8, batch=6, get=4, getall=1, snap=4, release=2, flush=5, crange=6, compact=1, reopen=1, scan=6, iter=16, layout=1, longiter=10),
     'c13': dict(put=26, dele=6, batch=6, get=4, getall=2, snap=3, release=2, flush=8, crange=10, compact=3, reopen=4, scan=2, iter=2, layout=8, longiter=8),
+    'c19': dict(put=30, dele=8, batch=8, get=8, getall=8, snap=2, release=1, flush=6, crange=8, compact=2, reopen=1, scan=5, iter=2, layout=3, longiter=0, repair=5),
     'c14': dict(put=28, dele=8, batch=8, get=3, getall=2, snap=4, release=3, flush=8, crange=12, compact=3, reopen=4, scan=1, iter=1, layout=10, longiter=0),
 }
 
@@ -146,6 +147,11 @@ def gen_history(rng, profile='c01', nops=80, cfg=None, heavy=None):
         elif o == 'reopen':
             if not open_iters:
                 ops.append('reopen'); live_snaps = []; ops.append('layout')
+        elif o == 'repair':
+            if not open_iters:
+                ops.append('repair %d' % rng.below(4)); live_snaps = []
+                for k in keys: ops.append('get %s -' % khex(k))
+                ops.append('scan -'); ops.append('layout')
         elif o == 'scan':
             sn = str(rng.choice(live_snaps)) if live_snaps and rng.chance(1, 2) else '-'
             ops.append('%s %s' % (rng.choice(['scan', 'rscan']), sn))
